@@ -7,6 +7,9 @@ abstracted ONCE into a fuel-free big-step relation `Run goal st st'` (a successf
 `Run`; `run_of_unify`).  `Run` is an over-approximation: the negative side conditions of the branches (the
 order of the tests) are dropped, which only makes the theorems proved by induction on `Run` stronger.  All
 semantic theorems (soundness, preservation of invariants, most-generality) are proved by induction on `Run`.
+
+The rules `prodSum`/`sumProd` (a sum against a product is walked as a product of one factor) and `pUnitR`/`pUnitL`
+(a factor of one element is unified with the unit axis and skipped) follow the repaired `Axis.unify`.
 -/
 import FggsModel.Unify
 import FggsProofs.Props.C06
@@ -194,10 +197,15 @@ def _root_.Fggs.Un.St.fresh (st : St) : St := { st with next := st.next + 1 }
 inductive Run : Goal → St → St → Prop
   | same {e0 f0 e f : Axis} {st : St} (he : Lk st.subst e0 e) (hf : Lk st.subst f0 f)
       (h : samePhys e f = true) : Run (.u e0 f0) st st
-  | zero {e0 f0 : Axis} {es fs : List Axis} {st : St} (he : Lk st.subst e0 (.prod es))
-      (hf : Lk st.subst f0 (.prod fs)) (hz : zeroList es = true) : Run (.u e0 f0) st st
+  | zero {e0 f0 f : Axis} {es : List Axis} {st : St} (he : Lk st.subst e0 (.prod es))
+      (hf : Lk st.subst f0 f) (hz : zeroList es = true) : Run (.u e0 f0) st st
   | prod {e0 f0 : Axis} {es fs : List Axis} {st st' : St} (he : Lk st.subst e0 (.prod es))
       (hf : Lk st.subst f0 (.prod fs)) (h : Run (.p es.reverse fs.reverse) st st') : Run (.u e0 f0) st st'
+  -- a sum against a product: the sum is walked as a product of one factor
+  | prodSum {e0 f0 t : Axis} {b a : Nat} {es : List Axis} {st st' : St} (he : Lk st.subst e0 (.prod es))
+      (hf : Lk st.subst f0 (.sum b t a)) (h : Run (.p es.reverse [.sum b t a]) st st') : Run (.u e0 f0) st st'
+  | sumProd {e0 f0 t : Axis} {b a : Nat} {fs : List Axis} {st st' : St} (he : Lk st.subst e0 (.sum b t a))
+      (hf : Lk st.subst f0 (.prod fs)) (h : Run (.p [.sum b t a] fs.reverse) st st') : Run (.u e0 f0) st st'
   | sum {e0 f0 t1 t2 : Axis} {b a : Nat} {st st' : St} (he : Lk st.subst e0 (.sum b t1 a))
       (hf : Lk st.subst f0 (.sum b t2 a)) (h : Run (.u t1 t2) st st') : Run (.u e0 f0) st st'
   | bindL {e0 f0 f : Axis} {v n : Nat} {st : St} (he : Lk st.subst e0 (.phys v n)) (hf : Lk st.subst f0 f) :
@@ -210,6 +218,11 @@ inductive Run : Goal → St → St → Prop
       (h : Run (.u unitAxis t) st st') : Run (.u e0 f0) st st'
   | pEq {e9 f9 : Axis} {es fs : List Axis} {st st1 st' : St} (hmn : e9.numel = f9.numel)
       (h1 : Run (.u e9 f9) st st1) (h2 : Run (.p es fs) st1 st') : Run (.p (e9 :: es) (f9 :: fs)) st st'
+  -- a factor with one element is unified with the unit axis and skipped
+  | pUnitR {f9 : Axis} {es fs : List Axis} {st st1 st' : St} (hn : f9.numel = 1)
+      (h1 : Run (.u f9 unitAxis) st st1) (h2 : Run (.p es fs) st1 st') : Run (.p es (f9 :: fs)) st st'
+  | pUnitL {e9 : Axis} {es fs : List Axis} {st st1 st' : St} (hm : e9.numel = 1)
+      (h1 : Run (.u e9 unitAxis) st st1) (h2 : Run (.p es fs) st1 st') : Run (.p (e9 :: es) fs) st st'
   | pLt {e9 f9 : Axis} {es fs : List Axis} {st st1 st' : St} (hlt : e9.numel < f9.numel)
       (hd : f9.numel % e9.numel = 0)
       (h1 : Run (.u f9 (productAxis [.phys st.next (f9.numel / e9.numel), e9])) st.fresh st1)
@@ -246,6 +259,10 @@ theorem run_step_unify (fuel : Nat)
       · next hz => cases h; exact .zero he hf hz
       · exact .prod he hf (ihp _ _ _ _ h)
     · split at h
+      · next hz => cases h; exact .zero he hf hz
+      · exact .prodSum he hf (ihp _ _ _ _ h)
+    · exact .sumProd he hf (ihp _ _ _ _ h)
+    · split at h
       · next hc =>
         simp only [Bool.and_eq_true, beq_iff_eq] at hc
         obtain ⟨rfl, rfl⟩ := hc
@@ -265,7 +282,6 @@ theorem run_step_unify (fuel : Nat)
         obtain ⟨rfl, rfl⟩ := hc
         exact .unitR he hf (ihu _ _ _ _ h)
       · cases h
-    · cases h
 
 theorem run_step_prod (fuel : Nat)
     (ihu : ∀ e f st st', unify fuel e f st = (true, st') → Run (.u e f) st st')
@@ -286,31 +302,47 @@ theorem run_step_prod (fuel : Nat)
         cases h
         exact absurd rfl (hr st')
     · split at h
-      · next hne hlt =>
+      · next hne hn1 =>
+        simp only [beq_iff_eq] at hn1
         split at h
-        · cases h
-        · next hd =>
-          simp only [bne_iff_ne, ne_eq, Decidable.not_not] at hd
-          simp only at h
+        · next st1 h1 => exact .pUnitR hn1 (ihu _ _ _ _ h1) (ihp _ _ _ _ h)
+        · next r hr =>
+          rw [h] at hr
+          exact absurd rfl (hr st')
+      · split at h
+        · next hne hn1 hm1 =>
+          simp only [beq_iff_eq] at hm1
           split at h
-          · next st1 h1 => exact .pLt hlt hd (ihu _ _ _ _ h1) (ihp _ _ _ _ h)
+          · next st1 h1 => exact .pUnitL hm1 (ihu _ _ _ _ h1) (ihp _ _ _ _ h)
           · next r hr =>
             rw [h] at hr
             exact absurd rfl (hr st')
-      · next hne hlt =>
-        have hgt : f9.numel < e9.numel := by
-          simp only [beq_iff_eq] at hne
-          omega
-        split at h
-        · cases h
-        · next hd =>
-          simp only [bne_iff_ne, ne_eq, Decidable.not_not] at hd
-          simp only at h
-          split at h
-          · next st1 h1 => exact .pGt hgt hd (ihu _ _ _ _ h1) (ihp _ _ _ _ h)
-          · next r hr =>
-            rw [h] at hr
-            exact absurd rfl (hr st')
+        · split at h
+          · next hne hn1 hm1 hlt =>
+            split at h
+            · cases h
+            · next hd =>
+              simp only [bne_iff_ne, ne_eq, Decidable.not_not] at hd
+              simp only at h
+              split at h
+              · next st1 h1 => exact .pLt hlt hd (ihu _ _ _ _ h1) (ihp _ _ _ _ h)
+              · next r hr =>
+                rw [h] at hr
+                exact absurd rfl (hr st')
+          · next hne hn1 hm1 hlt =>
+            have hgt : f9.numel < e9.numel := by
+              simp only [beq_iff_eq] at hne
+              omega
+            split at h
+            · cases h
+            · next hd =>
+              simp only [bne_iff_ne, ne_eq, Decidable.not_not] at hd
+              simp only at h
+              split at h
+              · next st1 h1 => exact .pGt hgt hd (ihu _ _ _ _ h1) (ihp _ _ _ _ h)
+              · next r hr =>
+                rw [h] at hr
+                exact absurd rfl (hr st')
   | [], fs =>
     rw [unifyProd.eq_3 _ _ _ _ (by intros; simp_all)] at h
     exact .pEnd (.inl rfl) (ihn _ _ _ h)
@@ -360,12 +392,22 @@ theorem Run.grows {g : Goal} {st st' : St} (h : Run g st st') :
   | same _ _ _ => exact ⟨⟨[], rfl⟩, Nat.le_refl _⟩
   | zero _ _ _ => exact ⟨⟨[], rfl⟩, Nat.le_refl _⟩
   | prod _ _ _ ih => exact ih
+  | prodSum _ _ _ ih => exact ih
+  | sumProd _ _ _ ih => exact ih
   | sum _ _ _ ih => exact ih
   | bindL _ _ => exact ⟨⟨[_], rfl⟩, Nat.le_refl _⟩
   | bindR _ _ => exact ⟨⟨[_], rfl⟩, Nat.le_refl _⟩
   | unitL _ _ _ ih => exact ih
   | unitR _ _ _ ih => exact ih
   | pEq _ _ _ ih1 ih2 =>
+    obtain ⟨⟨l1, e1⟩, n1⟩ := ih1
+    obtain ⟨⟨l2, e2⟩, n2⟩ := ih2
+    exact ⟨⟨l2 ++ l1, by rw [e2, e1, List.append_assoc]⟩, Nat.le_trans n1 n2⟩
+  | pUnitR _ _ _ ih1 ih2 =>
+    obtain ⟨⟨l1, e1⟩, n1⟩ := ih1
+    obtain ⟨⟨l2, e2⟩, n2⟩ := ih2
+    exact ⟨⟨l2 ++ l1, by rw [e2, e1, List.append_assoc]⟩, Nat.le_trans n1 n2⟩
+  | pUnitL _ _ _ ih1 ih2 =>
     obtain ⟨⟨l1, e1⟩, n1⟩ := ih1
     obtain ⟨⟨l2, e2⟩, n2⟩ := ih2
     exact ⟨⟨l2 ++ l1, by rw [e2, e1, List.append_assoc]⟩, Nat.le_trans n1 n2⟩
@@ -489,6 +531,16 @@ theorem Run.preserves (hQ : QOk Q) {g : Goal} {st st' : St} (h : Run g st st') :
     intro hst hg
     refine ih hst ⟨fun x hx => (he.axQ hst hg.1).prod x (by simpa using hx),
       fun x hx => (hf.axQ hst hg.2).prod x (by simpa using hx)⟩
+  | prodSum he hf _ ih =>
+    intro hst hg
+    refine ih hst ⟨fun x hx => (he.axQ hst hg.1).prod x (by simpa using hx), fun x hx => ?_⟩
+    simp only [List.mem_singleton] at hx
+    rw [hx]; exact hf.axQ hst hg.2
+  | sumProd he hf _ ih =>
+    intro hst hg
+    refine ih hst ⟨fun x hx => ?_, fun x hx => (hf.axQ hst hg.2).prod x (by simpa using hx)⟩
+    simp only [List.mem_singleton] at hx
+    rw [hx]; exact he.axQ hst hg.1
   | sum he hf _ ih =>
     intro hst hg
     exact ih hst ⟨(he.axQ hst hg.1).sum, (hf.axQ hst hg.2).sum⟩
@@ -508,6 +560,14 @@ theorem Run.preserves (hQ : QOk Q) {g : Goal} {st st' : St} (h : Run g st st') :
     intro hst hg
     have hst1 := ih1 hst ⟨hg.1 _ (by simp), hg.2 _ (by simp)⟩
     refine ih2 hst1 (GoalQ.mono hQ h1.grows.2 (g := .p _ _) ⟨fun x hx => hg.1 x (by simp [hx]), fun x hx => hg.2 x (by simp [hx])⟩)
+  | pUnitR hn h1 h2 ih1 ih2 =>
+    intro hst hg
+    have hst1 := ih1 hst ⟨hg.2 _ (by simp), AxQ.unit⟩
+    refine ih2 hst1 (GoalQ.mono hQ h1.grows.2 (g := .p _ _) ⟨hg.1, fun x hx => hg.2 x (by simp [hx])⟩)
+  | pUnitL hm h1 h2 ih1 ih2 =>
+    intro hst hg
+    have hst1 := ih1 hst ⟨hg.1 _ (by simp), AxQ.unit⟩
+    refine ih2 hst1 (GoalQ.mono hQ h1.grows.2 (g := .p _ _) ⟨fun x hx => hg.1 x (by simp [hx]), hg.2⟩)
   | @pLt e9 f9 es fs st st1 st' hlt hd h1 h2 ih1 ih2 =>
     intro hst hg
     have hq := div_ne_zero_of hlt hd
@@ -624,6 +684,26 @@ theorem Run.sound {g : Goal} {st st' : St} (h : Run g st st') :
     show _ = _
     rw [← he.eval hs0, ← hf.eval hs0, Axis.eval, Axis.eval]
     exact this
+  | @prodSum e0 f0 t b a es st st' he hf h ih =>
+    intro hst hg ρ hsat
+    have hs0 := h.sat hsat
+    have := ih hst ⟨fun x hx => (he.axQ hst hg.1).prod x (by simpa using hx), fun x hx => by
+      simp only [List.mem_singleton] at hx
+      rw [hx]; exact hf.axQ hst hg.2⟩ ρ hsat
+    simp only [SoundG, List.reverse_reverse] at this
+    show _ = _
+    rw [← he.eval hs0, ← hf.eval hs0, Axis.eval, this]
+    simp [evalList]
+  | @sumProd e0 f0 t b a fs st st' he hf h ih =>
+    intro hst hg ρ hsat
+    have hs0 := h.sat hsat
+    have := ih hst ⟨fun x hx => by
+      simp only [List.mem_singleton] at hx
+      rw [hx]; exact he.axQ hst hg.1, fun x hx => (hf.axQ hst hg.2).prod x (by simpa using hx)⟩ ρ hsat
+    simp only [SoundG, List.reverse_reverse] at this
+    show _ = _
+    rw [← he.eval hs0, ← hf.eval hs0, Axis.eval.eq_2, ← this]
+    simp [evalList]
   | sum he hf h ih =>
     intro hst hg ρ hsat
     have hs0 := h.sat hsat
@@ -668,6 +748,24 @@ theorem Run.sound {g : Goal} {st st' : St} (h : Run g st st') :
       ⟨fun x hx => hg.1 x (by simp [hx]), fun x hx => hg.2 x (by simp [hx])⟩) ρ hsat
     simp only [SoundG] at e1 e2 ⊢
     rw [evalList_rev_cons, evalList_rev_cons, e1, e2, hmn]
+  | @pUnitR f9 es fs st st1 st' hn h1 h2 ih1 ih2 =>
+    intro hst hg ρ hsat
+    have hg1 : GoalQ NZ st.next (.u f9 unitAxis) := ⟨hg.2 _ (by simp), AxQ.unit⟩
+    have hst1 := h1.preserves NZ_ok hst hg1
+    have e1 := ih1 hst hg1 ρ (h2.sat hsat)
+    have e2 := ih2 hst1 (GoalQ.mono NZ_ok h1.grows.2 (g := .p _ _)
+      ⟨hg.1, fun x hx => hg.2 x (by simp [hx])⟩) ρ hsat
+    simp only [SoundG, unitAxis_eval] at e1 e2 ⊢
+    rw [evalList_rev_cons, e1, hn, e2]; simp
+  | @pUnitL e9 es fs st st1 st' hm h1 h2 ih1 ih2 =>
+    intro hst hg ρ hsat
+    have hg1 : GoalQ NZ st.next (.u e9 unitAxis) := ⟨hg.1 _ (by simp), AxQ.unit⟩
+    have hst1 := h1.preserves NZ_ok hst hg1
+    have e1 := ih1 hst hg1 ρ (h2.sat hsat)
+    have e2 := ih2 hst1 (GoalQ.mono NZ_ok h1.grows.2 (g := .p _ _)
+      ⟨fun x hx => hg.1 x (by simp [hx]), hg.2⟩) ρ hsat
+    simp only [SoundG, unitAxis_eval] at e1 e2 ⊢
+    rw [evalList_rev_cons, e1, hm, e2]; simp
   | @pLt e9 f9 es fs st st1 st' hlt hd h1 h2 ih1 ih2 =>
     intro hst hg ρ hsat
     have hq := div_ne_zero_of hlt hd
@@ -908,6 +1006,34 @@ theorem Run.mgu {g : Goal} {st st' : St} (h : Run g st st') :
     simp only [SoundG, List.reverse_reverse] at hsd ⊢
     rw [Axis.eval] at e1 e2
     rw [e1, e2]; exact hsd
+  | @prodSum e0 f0 t b a es st st' he hf h ih =>
+    intro hst hg ρ hsat hrs hrg hsd
+    refine ih hst ⟨fun x hx => (he.axQ hst hg.1).prod x (by simpa using hx), fun x hx => by
+        simp only [List.mem_singleton] at hx
+        rw [hx]; exact hf.axQ hst hg.2⟩ ρ hsat hrs
+      ⟨fun x hx => (he.inRange hrs hrg.1).prod x (by simpa using hx), fun x hx => by
+        simp only [List.mem_singleton] at hx
+        rw [hx]; exact hf.inRange hrs hrg.2⟩ ?_
+    have e1 := he.eval hsat
+    have e2 := hf.eval hsat
+    simp only [SoundG, List.reverse_reverse] at hsd ⊢
+    rw [Axis.eval.eq_2] at e1
+    rw [e1, hsd, ← e2]
+    simp [evalList]
+  | @sumProd e0 f0 t b a fs st st' he hf h ih =>
+    intro hst hg ρ hsat hrs hrg hsd
+    refine ih hst ⟨fun x hx => by
+        simp only [List.mem_singleton] at hx
+        rw [hx]; exact he.axQ hst hg.1, fun x hx => (hf.axQ hst hg.2).prod x (by simpa using hx)⟩ ρ hsat hrs
+      ⟨fun x hx => by
+        simp only [List.mem_singleton] at hx
+        rw [hx]; exact he.inRange hrs hrg.1, fun x hx => (hf.inRange hrs hrg.2).prod x (by simpa using hx)⟩ ?_
+    have e1 := he.eval hsat
+    have e2 := hf.eval hsat
+    simp only [SoundG, List.reverse_reverse] at hsd ⊢
+    rw [Axis.eval.eq_2] at e2
+    rw [e2, ← hsd, ← e1]
+    simp [evalList]
   | sum he hf h ih =>
     intro hst hg ρ hsat hrs hrg hsd
     refine ih hst ⟨(he.axQ hst hg.1).sum, (hf.axQ hst hg.2).sum⟩ ρ hsat hrs
@@ -969,6 +1095,48 @@ theorem Run.mgu {g : Goal} {st st' : St} (h : Run g st st') :
         rw [ha1.evalList (xs := es.reverse) (fun x hx => hges x (by simpa using hx)),
           ha1.evalList (xs := fs.reverse) (fun x hx => hgfs x (by simpa using hx))]
         exact hAB)
+    exact ⟨ρ2, ha1.trans h1.grows.2 ha2, hs2, hr2⟩
+  | @pUnitR f9 es fs st st1 st' hn h1 h2 ih1 ih2 =>
+    intro hst hg ρ hsat hrs hrg hsd
+    have hg1 : GoalQ Bd st.next (.u f9 unitAxis) := ⟨hg.2 _ (by simp), AxQ.unit⟩
+    have hges : ∀ x ∈ es, AxQ Bd st.next x := hg.1
+    have hgfs : ∀ x ∈ fs, AxQ Bd st.next x := fun x hx => hg.2 x (by simp [hx])
+    have hst1 := h1.preserves Bd_ok hst hg1
+    simp only [SoundG] at hsd
+    rw [evalList_rev_cons] at hsd
+    have hy := (hrg.2 f9 (by simp)).lt
+    rw [hn] at hy hsd
+    have hy0 : f9.eval ρ = 0 := by omega
+    obtain ⟨ρ1, ha1, hs1, hr1⟩ := ih1 hst hg1 ρ hsat hrs ⟨hrg.2 _ (by simp), InRange.unit⟩ (by
+      simp only [SoundG, unitAxis_eval]; exact hy0)
+    obtain ⟨ρ2, ha2, hs2, hr2⟩ := ih2 hst1 (GoalQ.mono Bd_ok h1.grows.2 (g := .p _ _) ⟨hges, hgfs⟩) ρ1 hs1 hr1
+      ⟨fun x hx => ha1.inRange (hges x hx) (hrg.1 x hx),
+       fun x hx => ha1.inRange (hgfs x hx) (hrg.2 x (by simp [hx]))⟩ (by
+        simp only [SoundG]
+        rw [ha1.evalList (xs := es.reverse) (fun x hx => hges x (by simpa using hx)),
+          ha1.evalList (xs := fs.reverse) (fun x hx => hgfs x (by simpa using hx))]
+        omega)
+    exact ⟨ρ2, ha1.trans h1.grows.2 ha2, hs2, hr2⟩
+  | @pUnitL e9 es fs st st1 st' hm h1 h2 ih1 ih2 =>
+    intro hst hg ρ hsat hrs hrg hsd
+    have hg1 : GoalQ Bd st.next (.u e9 unitAxis) := ⟨hg.1 _ (by simp), AxQ.unit⟩
+    have hges : ∀ x ∈ es, AxQ Bd st.next x := fun x hx => hg.1 x (by simp [hx])
+    have hgfs : ∀ x ∈ fs, AxQ Bd st.next x := hg.2
+    have hst1 := h1.preserves Bd_ok hst hg1
+    simp only [SoundG] at hsd
+    rw [evalList_rev_cons] at hsd
+    have hy := (hrg.1 e9 (by simp)).lt
+    rw [hm] at hy hsd
+    have hy0 : e9.eval ρ = 0 := by omega
+    obtain ⟨ρ1, ha1, hs1, hr1⟩ := ih1 hst hg1 ρ hsat hrs ⟨hrg.1 _ (by simp), InRange.unit⟩ (by
+      simp only [SoundG, unitAxis_eval]; exact hy0)
+    obtain ⟨ρ2, ha2, hs2, hr2⟩ := ih2 hst1 (GoalQ.mono Bd_ok h1.grows.2 (g := .p _ _) ⟨hges, hgfs⟩) ρ1 hs1 hr1
+      ⟨fun x hx => ha1.inRange (hges x hx) (hrg.1 x (by simp [hx])),
+       fun x hx => ha1.inRange (hgfs x hx) (hrg.2 x hx)⟩ (by
+        simp only [SoundG]
+        rw [ha1.evalList (xs := es.reverse) (fun x hx => hges x (by simpa using hx)),
+          ha1.evalList (xs := fs.reverse) (fun x hx => hgfs x (by simpa using hx))]
+        omega)
     exact ⟨ρ2, ha1.trans h1.grows.2 ha2, hs2, hr2⟩
   | @pLt e9 f9 es fs st st1 st' hlt hd h1 h2 ih1 ih2 =>
     intro hst hg ρ hsat hrs hrg hsd
@@ -1231,6 +1399,24 @@ theorem Run.sized {g : Goal} {st st' : St} (h : Run g st st') :
     have e2 := hf.numel hst hg.2
     simp only [SizedG, Axis.numel, numelList_reverse] at hn e1 e2 ⊢
     rw [e1, e2]; exact hn
+  | @prodSum e0 f0 t b a es st st' he hf h ih =>
+    intro sz hst hg hn
+    refine ih sz hst ⟨fun x hx => (he.axQ hst.1 hg.1).prod x (by simpa using hx), fun x hx => by
+      simp only [List.mem_singleton] at hx
+      rw [hx]; exact hf.axQ hst.1 hg.2⟩ ?_
+    have e1 := he.numel hst hg.1
+    have e2 := hf.numel hst hg.2
+    simp only [SizedG, Axis.numel, numelList, numelList_reverse, Nat.mul_one] at hn e1 e2 ⊢
+    omega
+  | @sumProd e0 f0 t b a fs st st' he hf h ih =>
+    intro sz hst hg hn
+    refine ih sz hst ⟨fun x hx => by
+      simp only [List.mem_singleton] at hx
+      rw [hx]; exact he.axQ hst.1 hg.1, fun x hx => (hf.axQ hst.1 hg.2).prod x (by simpa using hx)⟩ ?_
+    have e1 := he.numel hst hg.1
+    have e2 := hf.numel hst hg.2
+    simp only [SizedG, Axis.numel, numelList, numelList_reverse, Nat.mul_one] at hn e1 e2 ⊢
+    omega
   | sum he hf h ih =>
     intro sz hst hg hn
     refine ih sz hst ⟨(he.axQ hst.1 hg.1).sum, (hf.axQ hst.1 hg.2).sum⟩ ?_
@@ -1278,6 +1464,30 @@ theorem Run.sized {g : Goal} {st st' : St} (h : Run g st st') :
         simp only [SizedG, numelList] at hn ⊢
         rw [hmn] at hn
         exact Nat.eq_of_mul_eq_mul_left (Tp.numel_pos hg1.2) hn)
+    exact ⟨sz2, ha1.trans hle ha2, hst2⟩
+  | @pUnitR f9 es fs st st1 st' hn1 h1 h2 ih1 ih2 =>
+    intro sz hst hg hn
+    have hg1 : GoalQ (Tp sz) st.next (.u f9 unitAxis) := ⟨hg.2 _ (by simp), AxQ.unit⟩
+    have hges : ∀ x ∈ es, AxQ (Tp sz) st.next x := hg.1
+    have hgfs : ∀ x ∈ fs, AxQ (Tp sz) st.next x := fun x hx => hg.2 x (by simp [hx])
+    obtain ⟨sz1, ha1, hst1⟩ := ih1 sz hst hg1 (by simp only [SizedG, unitAxis_numel]; exact hn1)
+    have hle := h1.grows.2
+    obtain ⟨sz2, ha2, hst2⟩ := ih2 sz1 hst1
+      ⟨fun x hx => Tp.mono hle (Tp.transfer ha1 (hges x hx)), fun x hx => Tp.mono hle (Tp.transfer ha1 (hgfs x hx))⟩ (by
+        simp only [SizedG, numelList] at hn ⊢
+        rw [hn1] at hn; omega)
+    exact ⟨sz2, ha1.trans hle ha2, hst2⟩
+  | @pUnitL e9 es fs st st1 st' hm1 h1 h2 ih1 ih2 =>
+    intro sz hst hg hn
+    have hg1 : GoalQ (Tp sz) st.next (.u e9 unitAxis) := ⟨hg.1 _ (by simp), AxQ.unit⟩
+    have hges : ∀ x ∈ es, AxQ (Tp sz) st.next x := fun x hx => hg.1 x (by simp [hx])
+    have hgfs : ∀ x ∈ fs, AxQ (Tp sz) st.next x := hg.2
+    obtain ⟨sz1, ha1, hst1⟩ := ih1 sz hst hg1 (by simp only [SizedG, unitAxis_numel]; exact hm1)
+    have hle := h1.grows.2
+    obtain ⟨sz2, ha2, hst2⟩ := ih2 sz1 hst1
+      ⟨fun x hx => Tp.mono hle (Tp.transfer ha1 (hges x hx)), fun x hx => Tp.mono hle (Tp.transfer ha1 (hgfs x hx))⟩ (by
+        simp only [SizedG, numelList] at hn ⊢
+        rw [hm1] at hn; omega)
     exact ⟨sz2, ha1.trans hle ha2, hst2⟩
   | @pLt e9 f9 es fs st st1 st' hlt hd h1 h2 ih1 ih2 =>
     intro sz hst hg hn
